@@ -72,6 +72,9 @@ func (c *Ctx) freshSliceCopyOfField(v ssa.Value, base ssa.Value, fld *types.Var)
 
 // isFreshEmptySlice: nil slice constant, []T{} literal, or make([]T, 0[, n]).
 func (c *Ctx) isFreshEmptySlice(v ssa.Value) bool {
+	if v == nil {
+		return true // appendChain's marker for a literal base whose elements were moved into the element list
+	}
 	v = c.Resolve(v)
 	if isNilConst(v) {
 		return true
